@@ -54,6 +54,17 @@ Theorem C12_success_has_no_failure : forall fuel a st st',
 Proof. exact success_has_no_failure. Qed.
 Print Assumptions C12_success_has_no_failure.
 
+(* a `when` given as literal text is true (resp. false) exactly for strconv.ParseBool's six
+   spellings of true (resp. false), after trimming blanks; anything else is an error *)
+Theorem C12_when_text_true : forall s data,
+  eval_cond (CText s) data = Some true <-> In (trim_space s) ["1"; "t"; "T"; "TRUE"; "true"; "True"]%string.
+Proof. intros s data. exact (parse_bool_true (trim_space s)). Qed.
+Print Assumptions C12_when_text_true.
+Theorem C12_when_text_false : forall s data,
+  eval_cond (CText s) data = Some false <-> In (trim_space s) ["0"; "f"; "F"; "FALSE"; "false"; "False"]%string.
+Proof. intros s data. exact (parse_bool_false (trim_space s)). Qed.
+Print Assumptions C12_when_text_false.
+
 (* non-vacuity: operations listed out of order, children with negative order, an abort two levels down *)
 Example C12_ex :
   let leaf n o ops := Act n o CNone ops [] in
